@@ -227,8 +227,10 @@ macro_rules! float_checks {
                     (v.sin(), v.cos(), v.tan(), v.sin_cos(), v.csc(), v.sec(), v.cot())
                 };
                 let ax = xr.abs();
-                // tolerance 8 eps (|f| + |x f'(x)|)
-                let tol = |f: f64, df: f64| 8.0 * EPS * (f.abs() + ax * df.abs()) + 1e-300;
+                // Rad: the input *is* the radian measure, so only the function's own rounding is allowed (2 eps |f|).
+                // Deg: the conversion a*pi/180 may be off by ~1.5 eps relative, which moves f by |x f'(x)| eps.
+                let conv = if deg { 8.0 } else { 0.0 };
+                let tol = |f: f64, df: f64| EPS * (2.0 * f.abs() + conv * (f.abs() + ax * df.abs())) + 1e-300;
                 let chk = |name: &'static str, got: F, f: f64, df: f64| -> Result<(), Outcome> {
                     if (got as f64 - f).abs() <= tol(f, df) {
                         Ok(())
